@@ -21,6 +21,11 @@ import (
 
 var otherSorts = []search.SortType{search.CreatedAsc, search.BlobRefAsc}
 
+// otherKons: this secondary scenario uses the first two constraints only
+// (camliType=permanode -> candidate source corpus_blob_meta, permanode{tag=x}
+// -> index_blob_meta).
+const otherKons = 2
+
 // timeOf is the model's creation time of a blob that may legitimately appear
 // in a CreatedAsc result: live permanodes and the deleted permanode pD (the
 // unsorted candidate sources do not filter deleted permanodes; whether they
@@ -39,42 +44,57 @@ func (w *World) timeOf(br blob.Ref) (time.Time, bool) {
 
 func (r *runner) otherSorts(w *World, k Kons, sc *vk.Scenario) {
 	for _, s := range otherSorts {
+		full, ff := w.Full(k, s)
+		sc.Transitions++
+		orderOpen := s == search.CreatedAsc && w.hasTiedTimes(full)
+		if ff != nil {
+			r.report(sc, Case{Spec: w.Spec, Kind: "around-other", Kons: k.Name, Sort: sortNames[s], Limit: 1, Pivot: w.Pivots[0].Name}, ff, false)
+			continue
+		}
 		for _, limit := range aroundLimits(w.Spec.N) {
 			for _, pv := range w.Pivots {
-				f := w.checkOtherCounted(k, s, limit, pv, sc)
+				sc.Executions++
+				sc.Transitions++
+				f, key, nontrivial := w.checkOther2(k, s, limit, pv, full)
 				if f != nil {
-					r.report(sc, Case{Spec: w.Spec, Kind: "around-other", Kons: k.Name, Sort: sortNames[s], Limit: limit, Pivot: pv.Name}, f)
+					r.report(sc, Case{Spec: w.Spec, Kind: "around-other", Kons: k.Name, Sort: sortNames[s], Limit: limit, Pivot: pv.Name}, f, orderOpen)
 					sc.Outcome("FAIL|" + f.Sig)
+					continue
+				}
+				sc.Outcome(key)
+				if nontrivial {
+					sc.Nontrivial++
 				}
 			}
 		}
 	}
 }
 
-func (w *World) checkOtherCounted(k Kons, s search.SortType, limit int, pv Pivot, sc *vk.Scenario) *Failure {
-	sc.Executions++
-	sc.Transitions += 2
-	f, key, nontrivial := w.checkOther2(k, s, limit, pv)
-	if f == nil {
-		sc.Outcome(key)
-		if nontrivial {
-			sc.Nontrivial++
+// hasTiedTimes: two elements of the list share a creation time, i.e. the
+// CreatedAsc order of the list is not determined.
+func (w *World) hasTiedTimes(l []blob.Ref) bool {
+	for i := range l {
+		ti, _ := w.timeOf(l[i])
+		for j := i + 1; j < len(l); j++ {
+			if tj, _ := w.timeOf(l[j]); ti.Equal(tj) {
+				return true
+			}
 		}
 	}
-	return f
+	return false
 }
 
 func (w *World) checkOther(k Kons, s search.SortType, limit int, pv Pivot) *Failure {
-	f, _, _ := w.checkOther2(k, s, limit, pv)
+	full, ff := w.Full(k, s)
+	if ff != nil {
+		return ff
+	}
+	f, _, _ := w.checkOther2(k, s, limit, pv, full)
 	return f
 }
 
-func (w *World) checkOther2(k Kons, s search.SortType, limit int, pv Pivot) (f *Failure, key string, nontrivial bool) {
+func (w *World) checkOther2(k Kons, s search.SortType, limit int, pv Pivot, full []blob.Ref) (f *Failure, key string, nontrivial bool) {
 	sn := sortNames[s]
-	full, ff := w.Full(k, s)
-	if ff != nil {
-		return ff, "", false
-	}
 	if s == search.BlobRefAsc {
 		out, f := w.CheckAround("around-other", k, s, limit, pv, full)
 		return f, sn + "|" + out.key(limit), out.PivotIdx >= 0 && limit > 0 && limit < out.FullLen
